@@ -16,6 +16,7 @@ TEXT={
  "C05":("real uacp.Conn (both the dialing and the accepting side, real handshake) is fed frame streams by a raw peer over the simulated TCP under seeded segmentation (whole writes, coalesced, random splits, 1-16 byte segments), latency and EOF at any byte; oracle: returned frames equal sent ones up to the first malformed/ERR/EOF position, where Receive must return an error; pending Receive must return once input is delivered","6 C05"),
  "C12":("the receiver must deliver exactly the non-aborted messages with identical payloads and report aborts for their request ids only","6 C12"),
  "C13":("process-level oracle (no panic), bounded return after the input is delivered or the peer closed, and a bound on the bytes held for incomplete messages read through an observation hook","6 C13"),
+ "C06":("wire oracle on chunk sizes against what each side announced; chunks of exactly the entitled size must be accepted; messages over a peer limit must fail at the sender without reaching the wire","6 C06"),
  "C07":("every message must come out of the peer's Receive with an identical payload; the wire oracle checks each emitted chunk's size against the negotiated chunk size and its MessageSize field and reassembles the chunks","6 C07"),
  "C08":("an independent implementation of the Part 6 secure conversation layout (written from the specification, standard library only) opens every chunk gopcua emits and gopcua accepts every chunk it produces, both roles","6 C08"),
  "C09":("no message that was not sent may come out of either receiver, the message containing the modified chunk must not be delivered, the process must not panic","6 C09"),
